@@ -1029,7 +1029,9 @@ def _mk_validate_sshsig(armoured):
         requires=lambda c: (lambda d: d if armoured else z3.Not(d))(
             z3.PrefixOf(bytes_const(b'-'), c.arg('sig'))),
         ensures=[('true-only-for-same-message-namespace-and-authorised-signer', sshsig_true_only_if)],
-        raises={'ValueError': True})
+        # documented to return a bool: malformed, unsupported or unauthorised signatures are False, never an
+        # exception (an unsupported hash / empty namespace / X.509 certificate used to escape as ValueError)
+        raises={}, returns='bool')
     sp.native_isinstance = ('SSHAllowedSigners',)
     if armoured:
         sp.no_replay = True
